@@ -38,7 +38,8 @@ for i in range(1, 21):
                 " (eighth round: A = a change in the input-parsing layer - record columns, parameter-file lines, option values; B = a change in the output / reporting layer)" if BASE.endswith("8") else
                 " (ninth round: A = state, aliasing and lifetime - shared mutable objects, class-level vs instance attributes, containers that survive between calls; B = types and conversions - str / int / float keys and comparisons, int() vs round(), blank vs empty, label strings instead of fields)" if BASE.endswith("9") else
                 " (tenth round: A = a mirror-image slip between twin code paths - group1 / group2, x / y / z, acid / base, inner / outer, folded / unfolded; B = degenerate geometry and numerics - exact zeros and ties, collinear or axis-aligned atoms, one-point ranges, clamps and guards)" if BASE.endswith("10") else
-                " (eleventh round: A = a change in the code for ligands, ions and other hetero groups - typing, naming, bonds and bond paths, hydrogens, parameters; B = the sub-agent's own best idea for a slip that is hardest to detect)" if BASE.endswith("11") else ""),
+                " (eleventh round: A = a change in the code for ligands, ions and other hetero groups - typing, naming, bonds and bond paths, hydrogens, parameters; B = the sub-agent's own best idea for a slip that is hardest to detect)" if BASE.endswith("11") else
+                " (twelfth round: A = a change where several conformations meet ligands, ions, chain ends, insertion codes or options; B = the sub-agent's own best idea)" if BASE.endswith("12") else ""),
             "needs_to_manifest": notes.strip().split("\n\n")[0][:1200],
             "confirmed_by_me": {
                 "how": "tools/eval_seed.py: rsync copies of /repo outside /repo and /verif; patch applied with patch -p1; "
